@@ -401,6 +401,57 @@ static void ob_poison(H<T>& h)
     h.check("C06|poison.adaptation_identical_and_finite_in_all_later_iterations", adaptive_same<T>(h, a, b));
 }
 
+
+// ---- ob 9: weight summary printing for many channels (C20): terminates without error --------------------
+template <typename T>
+static void summary_case(H<T>& h, std::size_t C, std::size_t z, std::size_t rot)
+{
+    // z channels are disabled (weight zero)
+    h.event("channels " + std::to_string(C) + " disabled " + std::to_string(z) + " rotation " + std::to_string(rot));
+    std::size_t const calls = 1000;
+    sym::E().conv_cap = 1024;
+    std::vector<T> w(C), adj(C);
+    // the subject is the index arithmetic of the summary, which depends on the number of channels and on the size
+    // of the minimal-weight group only: enabled channels get the concrete weights 1 : 2 : 3 : ... (normalised)
+    std::size_t const k = C - z;
+    for (std::size_t i = 0; i != C; ++i)
+    {
+        if (i < z) { w[i] = T(0.0); adj[i] = T(0.0); continue; }
+        w[i] = T(2.0 * static_cast<double>(i - z + 1)) / T(static_cast<double>(k * (k + 1)));
+        adj[i] = h.input("W", 0.0, 1e6);
+    }
+    // rotate so that the disabled channels are not simply the first ones
+    std::rotate(w.begin(), w.begin() + (rot % C), w.end());
+    std::rotate(adj.begin(), adj.begin() + (rot % C), adj.end());
+    hep::plain_result<T> pr(std::vector<hep::distribution_result<T>>{}, calls, calls - 1, calls - 1, T(1.0), T(2.0));
+    hep::multi_channel_result<T> r(pr, adj, w);
+    auto chk = hep::make_multi_channel_chkpt<T>(T(0.0), T(0.25), sym::stub_engine());
+    chk.add(r, sym::stub_engine());
+    std::ostringstream out;
+    hep::multi_channel_summary(chk, out);     // an exception or failed assertion here is reported by the engine
+    std::string const text = out.str();
+    h.check("C20|summary.prints_without_error_for_many_channels", h.truth(!text.empty() && text.find("summary of a-priori weights") == 0));
+    hep::multi_channel_weight_info<T> info(r);
+    bool sorted = info.channels().size() == C && info.weights().size() == C && info.calls().size() == C &&
+        info.minimal_weight_count() >= 1 && info.minimal_weight_count() <= C;
+    h.check("C20|summary.weight_info_consistent", h.truth(sorted));
+    if (!sorted) return;
+    auto nondecreasing = h.truth(true);
+    for (std::size_t i = 0; i + 1 < C; ++i) nondecreasing = nondecreasing && h.le(info.weights()[i], info.weights()[i + 1]);
+    h.check("C20|summary.channels_sorted_by_weight", nondecreasing);
+    h.check("C20|summary.minimal_group_is_the_disabled_channels", h.truth(z == 0 || info.minimal_weight_count() == z));
+}
+
+template <typename T>
+static void ob_summary(H<T>& h)
+{
+    std::size_t const lo = h.get("Cmin", 1), hi = h.get("Cmax", 14);
+    for (std::size_t C = lo; C <= hi; ++C)
+        for (std::size_t z = 0; z < C; ++z)
+            for (std::size_t rot : {std::size_t(0), std::size_t(1), C / 2})
+                summary_case<T>(h, C, z, rot);
+}
+
 // ---- dispatch ------------------------------------------------------------------------------------
 template <typename T, typename A>
 static void by_ob(H<T>& h)
@@ -420,6 +471,7 @@ static void by_ob(H<T>& h)
 template <typename T>
 static void body(H<T>& h)
 {
+    if (h.get("ob", 0) == 9) { ob_summary<T>(h); return; }
     switch (h.get("alg", 0))
     {
     case 0: by_ob<T, plain_alg<T>>(h); break;
